@@ -202,7 +202,13 @@ fn primitives(args: &Args, rep: &mut Report) {
     let fillers = ["a", "é", "日", "𝄞"];
     let mut lens: Vec<usize> = (0..=40).collect();
     lens.extend(4088..=4102);
-    lens.extend([255, 256, 257, 8191, 8192, 8193, 70000]);
+    lens.extend([255, 256, 257]);
+    if !args.miri() {
+        lens.extend([8191, 8192, 8193, 70000]);
+    } else {
+        // the interpreter is slow on long strings: a seed-dependent quarter of the lengths
+        lens = lens.into_iter().enumerate().filter(|(i, _)| args.keep(*i, 4)).map(|(_, l)| l).collect();
+    }
     for &n in &lens {
         for (fi, f) in fillers.iter().enumerate() {
             // n bytes total: filler repeated, padded with ascii to hit the exact byte length
@@ -422,15 +428,17 @@ fn roundtrip_model(rep: &mut Report, name: &str, xml: &str, fsm: &Fsm, variant: 
 }
 
 pub fn run(args: &Args, rep: &mut Report) {
-    if args.shard == 0 {
+    if args.shard == 0 || (args.miri() && args.shard % 4 == 0) {
         primitives(args, rep);
     }
     let mut rng = args.rng(55);
     // models
     let mut texts: Vec<(String, String, Option<crate::docgen::Doc>)> = Vec::new();
-    if args.shard == 1 % args.nshards {
-        for (n, x) in crate::sermodels::feature_docs() {
-            texts.push((n, x, None));
+    if args.shard == 1 % args.nshards || args.miri() {
+        for (i, (n, x)) in crate::sermodels::feature_docs().into_iter().enumerate() {
+            if args.keep(i + args.shard, 6) {
+                texts.push((n, x, None));
+            }
         }
     }
     for (n, d) in crate::sermodels::generated(&mut rng, args.scale(200, 4000), args.thorough()) {
